@@ -5,7 +5,7 @@ import json, os, shutil, subprocess, tempfile, time
 
 VERIF = os.path.dirname(os.path.dirname(os.path.abspath(__file__)))
 REPO = os.environ.get('VP_REPO', '/repo')
-TARGET = os.path.join(VERIF, 'build', 'cli-target')
+TARGET = os.path.join(VERIF, 'build', 'cli-target-scratch' if os.path.realpath(REPO) != '/repo' else 'cli-target')
 CLI = os.path.join(TARGET, 'debug', 'typstyle')
 _built = {}
 
